@@ -153,6 +153,9 @@ class NativeSym(object):
             idx += len(s)
         return 0 <= idx < len(s) and in_class(s[idx], r)
 
+    def has_digit_run(self, s, k):
+        return any(all("0" <= ch <= "9" for ch in s[i:i + k]) for i in range(len(s) - k + 1))
+
     def same(self, a, b):
         """structural equality of plain data (texts, numbers, containers)"""
         return a == b and type(a) is type(b) if isinstance(a, (bool, int)) and isinstance(b, (bool, int)) else a == b
